@@ -12,7 +12,8 @@ run(ctx):
                  the grid-even-but-not-even witness function
        GATE      Gate: scalars / gates / gated layouts incl. empty parts, zero multiplicities, repeated and unsorted
                  irreps, gates of both parities with even/odd/neither/None activations, non-scalar gates, wrong counts
-       NACT      NormActivation: epsilon None / valid / 0 / negative / nan, normalize, bias, str-vs-Irreps argument;
+       NACT      NormActivation: epsilon None / valid / 0 / negative / nan, normalize True / False (False keeps the
+                 stored epsilon None: no clamp, Norm(squared=False)), bias, str-vs-Irreps argument;
                  forward on zero copies, copies of norm eps(1 +- 1e-3), 1e+-150 scalings, random
        NORM      o3.Norm squared / not squared
        EXTRACT   Extract (valid, repeated blocks, whole copy, broadcasting and mismatching irreps_outs, bad counts,
@@ -24,7 +25,10 @@ run(ctx):
      values        plain-python readings of the statement (spec_act, spec_gate, spec_nact, spec_norm, spec_extract:
                    activated scalars ++ gated copy x own activated gate, phi(max(|x|,eps)+b)/max(|x|,eps) x, |x_u|,
                    copies of the selected slices), tolerance 1e-9, on every successful forward of step 2.
-  4. known constructor defects are replayed and reported with ctx.violation(key, ..., found=True).
+  4. constructor defects are replayed and, while they reproduce, reported with ctx.violation(key, ..., found=True):
+     Gate/zero-multiplicity-lmax and Identity/empty-irreps (recorded in known_findings.txt), and the two repaired in
+     /repo (2872ee3, 11f82c3) NormActivation/normalize-False-constructor, NormActivation/bias-with-str-irreps, which
+     are reported again under the same keys if the constructor regresses.
 A model/code disagreement alone is reported as `corr:<stream>` (no failing input) unless one of the two oracles
 fails on the real module for that stream (then `<stream>/equivariance` or `<stream>/value` with the input).
 """
@@ -546,8 +550,9 @@ def run(ctx):
             v = []
         fn = rng.choice(na_funcs)
         r = rng.random()
-        normalize = r > 0.15
-        eps = rng.choice([None, None, 1e-8, 1e-3, 0.5, 1e-150, 0.0, -1.0, float("nan")] if r > 0.3 else [None, 1e-3])
+        normalize = r > 0.3  # normalize=False: constructible with epsilon=None only (stored epsilon None, no clamp)
+        eps = rng.choice([None, None, 1e-8, 1e-3, 0.5, 1e-150, 0.0, -1.0, float("nan")] if normalize
+                         else [None, None, None, 1e-3])
         bias = rng.random() < 0.4
         is_str = rng.random() < 0.3
         arg = str(mk(v)) if is_str else mk(v)
@@ -567,35 +572,20 @@ def run(ctx):
             continue
         if bias:
             m.biases.data = torch.tensor(b, dtype=torch.float64)
-        eq_jobs.append(("NACT", desc, m, v, [v], float(m.epsilon)))
+        eps_st = None if m.epsilon is None else float(m.epsilon)
+        ctx.count(f"NACT:fwd:normalize={normalize}:bias={bias}:str={is_str}")
+        eq_jobs.append(("NACT", desc, m, v, [v], eps_st or 1e-8))
         for mo in ["zero", "mix", "mix", "big", "tiny", "rand"]:
-            x = rand_point(rng, v, mo, eps=float(m.epsilon))
+            x = rand_point(rng, v, mo, eps=eps_st or 1e-8)
             r_ = fwd_real(m, [x])
             rf = ("ok", r_[1].tolist()[0]) if r_[0] == "ok" else r_
             S.add("NACT", head + "|" + enc_floats(x), desc + (mo,), rc, rf,
-                  {"spec": (lambda a=(v, fn, normalize, float(m.epsilon), b), x=x: spec_nact(*a, x))})
+                  {"spec": (lambda a=(v, fn, normalize, eps_st, b), x=x: spec_nact(*a, x))})
         if it % 5 == 0:
             x = rand_point(rng, v, "rand") + [0.5]
             r_ = fwd_real(m, [x])
             rf = ("ok", r_[1].tolist()[0]) if r_[0] == "ok" else r_
             S.add("NACT", head + "|" + enc_floats(x), ("NormActivation-badlen",) + desc[1:], rc, rf)
-    # forward of normalize=False (unreachable through the constructor): a module altered by hand
-    for it in range(6 if quick else 40):
-        v = rand_irreps(rng)
-        fn = rng.choice(na_funcs)
-        m = NormActivation(mk(v), F[fn][0])
-        m.normalize, m.epsilon, m._eps_squared = False, None, 0.0
-        m.norm = o3.Norm(mk(v), squared=False)
-        head = f"NACT|{enc_irreps(v)}|{fn}|0|N|-|0"
-        for mo in ["zero", "mix", "rand"]:
-            x = rand_point(rng, v, mo)
-            r_ = fwd_real(m, [x])
-            rf = ("ok", r_[1].tolist()[0]) if r_[0] == "ok" else r_
-            S.add("NACT", head + "|" + enc_floats(x), ("NormActivation-surgery-normalize-False", v, fn, mo),
-                  ("error", "noneGtInt"), rf,
-                  {"surgery": True, "spec": (lambda a=(v, fn, False, None, None), x=x: spec_nact(*a, x))})
-        eq_jobs.append(("NACT", ("NormActivation-surgery", v, fn), m, v, [v], 1e-8))
-
     # ------------------------------------------------------------------ Norm
     for it in range(40 if quick else 400):
         v = rand_irreps(rng)
@@ -776,7 +766,7 @@ def run(ctx):
     for (stream, desc, rc, rf, meta), line, o in zip(S.expect, S.lines, outs):
         cpart, _, fpart = o.partition(" # ")
         mc, mf = parse_ctor(stream, cpart), parse_fwd(stream, fpart)
-        ok_c = (mc == rc) or bool(meta.get("surgery") and mc == rc)
+        ok_c = mc == rc
         if stream == "NACT" and mc[0] == "ok" and rc[0] == "ok":
             ok_c = mc[1] == rc[1]
         ok_f = True
@@ -854,25 +844,38 @@ def run(ctx):
     ctx.obligation("oracle:equivariance-real-modules", not eq_fail, json.dumps(eq_fail)[:3000])
     for stream, lst in eq_fail.items():
         ctx.violation(f"{stream}/equivariance", {"failures": lst[:5], "tolerance": EQ_TOL}, found=True)
+    # ------------------------------------------------------------------ constructor defects (replayed)
+    reproduced = {}
+    for key, d in defects().items():
+        obs = d["run"]()
+        reproduced[key] = obs["reproduced"]
+        ctx.count("DEFECT:" + key + ":" + ("reproduced" if obs["reproduced"] else "absent"))
+        if obs["reproduced"]:
+            ctx.violation(key, {"call": d["call"], "observed": obs["observed"], "expected": d["expected"],
+                                "model_theorem": d["theorem"]}, found=True)
+    # constructor disagreements that are exactly a reproduced defect are reported under the defect's key only
+    explained = {"noneGtInt": "NormActivation/normalize-False-constructor",
+                 "strNumIrreps": "NormActivation/bias-with-str-irreps"}
+    for stream in list(mism):
+        mism[stream] = [e for e in mism[stream]
+                        if not any(k in e["real_ctor"] and reproduced.get(key) for k, key in explained.items())]
+    explained_only = {st for st, lst in mism.items() if not lst}
+
     ctx.notes["value_oracle_evaluations"] = n_val
     ctx.obligation("oracle:closed-form-values-real-modules", not val_fail, json.dumps(val_fail)[:3000])
     for stream, lst in val_fail.items():
         ctx.violation(f"{stream}/value", {"failures": lst[:5], "tolerance": 1e-9}, found=True)
     for stream, lst in mism.items():
+        if stream in explained_only:
+            ctx.obligation(f"corr:{stream}", False, "constructor disagreements explained by reproduced defects: "
+                           + ", ".join(k for k, v in reproduced.items() if v))
+            continue
         ctx.obligation(f"corr:{stream}", False, json.dumps(lst[:3])[:3000])
         if stream not in eq_fail and stream not in val_fail:
             ctx.violation(f"corr:{stream}", {"disagreements": lst[:10], "count": len(lst)}, found=False)
     for stream in ["ACT", "GATE", "NACT", "NORM", "EXTRACT", "EXTRACTIR", "IDENT"]:
         if stream not in mism:
             ctx.obligation(f"corr:{stream}", True)
-
-    # ------------------------------------------------------------------ known constructor defects (replayed)
-    for key, d in defects().items():
-        obs = d["run"]()
-        ctx.count("DEFECT:" + key + ":" + ("reproduced" if obs["reproduced"] else "absent"))
-        if obs["reproduced"]:
-            ctx.violation(key, {"call": d["call"], "observed": obs["observed"], "expected": d["expected"],
-                                "model_theorem": d["theorem"]}, found=True)
 
     ctx.notes["rule"] = (
         "seeded random layouts (mul 0..3, l 0..3, both parities, empty / repeated / unsorted irreps) x activation "
@@ -905,13 +908,14 @@ def defects():
     from e3nn import o3
     from e3nn.nn import Gate, Identity, NormActivation
 
-    def attempt(f, exc_name, pat):
+    def attempt(f, exc_name, pat, any_exception=False):
+        # any_exception: the defect was repaired in /repo; whatever makes the constructor fail again is a regression
         def go():
             try:
                 f()
                 return {"reproduced": False, "observed": "constructed"}
             except Exception as e:  # noqa: BLE001
-                rep = type(e).__name__ == exc_name and pat in str(e)
+                rep = any_exception or (type(e).__name__ == exc_name and pat in str(e))
                 return {"reproduced": rep, "observed": f"{type(e).__name__}: {str(e)[:200]}"}
         return go
 
@@ -919,14 +923,16 @@ def defects():
         "NormActivation/normalize-False-constructor": {
             "call": 'e3nn.nn.NormActivation("1e", torch.sigmoid, normalize=False)',
             "expected": "a module (normalize=False is documented; epsilon must then be None)",
-            "theorem": "normActCtor_normalize_false_unconstructible",
-            "run": attempt(lambda: NormActivation("1e", torch.sigmoid, normalize=False), "TypeError", "not supported"),
+            "theorem": "normActCtor_normalize_false (the model accepts; a failure is a regression of 2872ee3)",
+            "run": attempt(lambda: NormActivation("1e", torch.sigmoid, normalize=False), "TypeError", "not supported",
+                           any_exception=True),
         },
         "NormActivation/bias-with-str-irreps": {
             "call": 'e3nn.nn.NormActivation("2x1e", torch.sigmoid, bias=True)',
             "expected": "a module (the docstring example passes a str; Norm and ElementwiseTensorProduct accept it)",
-            "theorem": "normActCtor_bias_str",
-            "run": attempt(lambda: NormActivation("2x1e", torch.sigmoid, bias=True), "AttributeError", "num_irreps"),
+            "theorem": "normActCtor_bias_str (the model accepts; a failure is a regression of 11f82c3)",
+            "run": attempt(lambda: NormActivation("2x1e", torch.sigmoid, bias=True), "AttributeError", "num_irreps",
+                           any_exception=True),
         },
         "Gate/zero-multiplicity-lmax": {
             "call": 'e3nn.nn.Gate("0e", [torch.tanh], "0x0e", [torch.tanh], "0x1e")',
